@@ -16,12 +16,17 @@ def run(res):
     Kf = wc.base(Acts={'create', 'add', 'remove', 'toggle', 'fault'}, Ids={1}, MaxAuto=1, Types=wc.T2, Bases=wc.BASES2, MaxQ=3,
                  **wc.comps(C3, falsy={'c1'}))
     wc.check_and_replay(res, 'c02_release_fault', Kf, own, depth_all=0, walks=10000 if th else 1000, walk_len=30)
+    # re-entrant lifecycle callbacks: a component removing itself from its own on_add; an on_add that disables dispatching
+    # in the middle of a multi-component create_entity
+    Kr = wc.base(Acts={'create', 'add', 'remove', 'toggle', 'reentrant'}, Ids={1, 2}, MaxAuto=0, Types=wc.T2, Bases=wc.BASES2, MaxQ=2,
+                 **wc.comps(C3, falsy={'c3'}))
+    wc.check_and_replay(res, 'c02_reentrant', Kr, own, depth_all=0, walks=10000 if th else 1000, walk_len=30)
     # processors have the same lifecycle (on_add / on_remove without arguments)
     P = wc.procs({'p1': ('P1', ('on_add', 'on_remove')), 'q': ('Q', ('on_remove', 'probe'))}, {'P1': ((), 0), 'Q': ((), 5)})
     K2 = wc.base(Acts={'add', 'remove', 'clear', 'toggle', 'probe', 'proc', 'process'}, Ids={1}, MaxAuto=1, Types=wc.T2, Bases=wc.BASES2,
                  MaxQ=3, Prios={0}, **wc.comps(C2P), **P)
     wc.check_and_replay(res, 'c02_processors', K2, own | {'processors'}, depth_all=0, walks=1000)
-    wc.trace_validate(res, 'c02_recorded', wc.big({'create', 'create2', 'add', 'remove', 'delete', 'process', 'clear', 'toggle', 'proc', 'fault'}), 2000 if th else 150, 60)
+    wc.trace_validate(res, 'c02_recorded', wc.big({'create', 'create2', 'add', 'remove', 'delete', 'process', 'clear', 'toggle', 'proc', 'fault', 'reentrant'}), 2000 if th else 150, 60)
     wc.repo_tests_validate(res)
     for sw, inv in [('ImmediateDeleteNotifies', ('RegisteredIffAttached', 'MarksHaveRows')), ('ClearKeepsSelf', ('WorldListensToItself',)),
                     ('RelayOnlyDeclared', ('NoBadRelay',)), ('CreateNotifiesReplaced', ('RegisteredIffAttached',))]:
